@@ -3,6 +3,7 @@ package main
 import (
 	"fmt"
 	"go/types"
+	"regexp"
 	"os"
 	"path/filepath"
 	"sort"
@@ -50,7 +51,10 @@ func isHarnessFn(fn *ssa.Function) bool {
 func shortFn(fn *ssa.Function) string { return shortName(fn.String()) }
 
 // shortName strips module paths: (*github.com/CrowdStrike/csproto.Decoder).DecodeTag -> (*csproto.Decoder).DecodeTag
+var variantPkgRe = regexp.MustCompile(`\bp([23])(pm|u)\.`)
+
 func shortName(s string) string {
+	s = variantPkgRe.ReplaceAllString(s, "p$1.") // generator-option variants of a corpus package share obligation identities
 	for _, pre := range []string{"github.com/CrowdStrike/", "google.golang.org/protobuf/", "github.com/", "verifcorpus/"} {
 		s = strings.ReplaceAll(s, pre, "")
 	}
